@@ -71,6 +71,17 @@ func NewExchangeRegexSchema(regexStr bytes.Bytes) (*ExchangeRegexSchema, error) 
 	return &ExchangeRegexSchema{RSchema: s, example: &regexExample{}}, nil
 }
 
+// Validate checks, while the catalog is being built, everything the serialisation
+// of the schema needs later on: the pattern and the example generated from it (an
+// expression that is not a valid regular expression fails only there).
+func (e ExchangeRegexSchema) Validate() error {
+	if _, err := e.Pattern(); err != nil {
+		return err
+	}
+	_, err := e.Example()
+	return err
+}
+
 func newExchangeRegexSchema(s *regex.RSchema) *ExchangeRegexSchema {
 	return &ExchangeRegexSchema{RSchema: s, example: &regexExample{}}
 }
